@@ -99,6 +99,13 @@ func prepare(id string, instrument bool) (string, []unit) {
 	if out, err := run("/", os.Environ(), "rsync", "-a", "--exclude", ".git", repoDir+"/", scratch+"/"); err != nil {
 		infra("rsync: %v\n%s", err, out)
 	}
+	if pf := os.Getenv("VERIF_PATCH"); pf != "" {
+		// testing aid: apply a patch to the scratch copy only (/repo is untouched)
+		if out, err := run(scratch, os.Environ(), "patch", "-p1", "-s", "-i", pf); err != nil {
+			cleanup(scratch)
+			infra("VERIF_PATCH %s does not apply: %v\n%s", pf, err, out)
+		}
+	}
 	zdst := filepath.Join(scratch, "internal", "zsim")
 	os.MkdirAll(zdst, 0o755)
 	if out, err := run("/", os.Environ(), "rsync", "-a", filepath.Join(verifDir, "simrt", "zsim")+"/", zdst+"/"); err != nil {
